@@ -1,11 +1,73 @@
-"""C16 - singularity removal changes a model only at its removable singular points (structure of the rewrite)."""
+"""C16 - singularity removal changes a model only at its removable singular points (structure of the rewrite).
+
+All functions are judged on the abstract value they compute (sa.av), compared with the value of the vetted
+reference text of the same function (rules/util.same_as_reference): loops, comprehensions, helper extraction,
+try/except-KeyError vs dict.get, hoisted imports are all the same value.  remove_singularities itself is judged by its
+own rules (it carries a known finding on the unchanged tree)."""
 
 from __future__ import annotations
 
-import ast
-
+from sa import av
 from sa.core import Ctx
-from sa.sm import call_kw, const_str, dotted, find_calls, norm
+
+from . import util
+from .c03 import _branches
+
+REF_SINGULARITIES = '''
+def singularities(self, lookup):
+    from sympy import singularities, limit
+
+    singularity_list = set()
+    if self.value is None:
+        return frozenset(singularity_list)
+    if self.expr == 0:
+        return frozenset(singularity_list)
+    for dep in self.value.dependencies:
+        try:
+            var = lookup[dep]
+        except KeyError:
+            continue
+        if not var.is_stateful(lookup):
+            continue
+        values = singularities(self.expr, var.symbol)
+        if not values:
+            continue
+        if not isinstance(values, sp.sets.sets.FiniteSet):
+            continue
+        for value in values:
+            singularity_list.add(Singularity(symbol=var.symbol, value=value, replacement=limit(self.expr, var.symbol, value)))
+    return frozenset(singularity_list)
+'''
+
+REF_IS_INFINITE = '''
+@property
+def is_infinite(self):
+    return self.replacement.has(sp.oo) or self.replacement.has(-sp.oo)
+'''
+
+REF_ASSIGNMENT_REMOVE = '''
+def remove_singularities(self, lookup):
+    if singularities := self.singularities(lookup):
+        new_expr = remove_singularities(self.expr, singularities)
+        return type(self)(name=self.name, value=self.value, components=self.components, unit_str=self.unit_str, unit=self.unit, expr=new_expr, symbol=self.symbol, description=self.description, comment=self.comment)
+    return self
+'''
+
+REF_COMPONENT_REMOVE = '''
+def remove_singularities(self, lookup):
+    new_assignments = set()
+    for assignment in self.assignments:
+        new_assignments.add(assignment.remove_singularities(lookup))
+    return Component(name=self.name, states=self.states, parameters=self.parameters, assignments=frozenset(new_assignments))
+'''
+
+REF_ODE_REMOVE = '''
+def remove_singularities(self):
+    new_components = []
+    for component in self._components.values():
+        new_components.append(component.remove_singularities(self._lookup))
+    return ODE(components=new_components, t=self.t, name=self.name, comments=self.comments)
+'''
 
 
 def run(ctx: Ctx):
@@ -15,71 +77,76 @@ def run(ctx: Ctx):
     ctx.rule("R16.a", "linear use: for any number of singularities the original expression occurs exactly once, on the branch where no singular condition holds", floor=1)
     f = sm.func("atoms.py", "remove_singularities")
     e, sing = f.params[0], f.params[1]
-    comps = [n for n in ast.walk(f.node) if isinstance(n, (ast.ListComp, ast.GeneratorExp)) and isinstance(n.elt, ast.Call) and (dotted(n.elt.func) or "").endswith("Conditional")]
-    loops = [n for n in ast.walk(f.node) if isinstance(n, ast.For)]
-    combined_by_sum = [c for c in ast.walk(f.node) if isinstance(c, ast.Call) and isinstance(c.func, ast.Name) and c.func.id == "sum"] + [c for c in ast.walk(f.node) if isinstance(c, ast.Call) and (dotted(c.func) or "").endswith("Add")]
-    if comps and combined_by_sum:
-        false_v = call_kw(comps[0].elt, "false_value") or (comps[0].elt.args[2] if len(comps[0].elt.args) > 2 else None)
-        ctx.fail(
-            "R16.a",
-            f.key(f"sum(exprs)"),
-            f"remove_singularities builds one Conditional per singularity, each with the *whole* expression as its regular branch (false_value={norm(false_v) if false_v is not None else None}), and adds them up: with k removable singularities the result is k*expr away from the singular points (and replacement + (k-1)*expr at them)",
-            f.where(combined_by_sum[0]),
-            trace=["x/(exp(x)-1) + (x-1)/(exp(x-1)-1) has two removable singularities: the rewritten expression is twice the original off the singular points"],
-        )
-    elif loops:
-        # nested fold: new = expr; for s in singularities: new = Conditional(Eq(..), replacement, new)
-        l = loops[0]
-        upd = [s for s in l.body if isinstance(s, ast.Assign) and isinstance(s.value, ast.Call) and (dotted(s.value.func) or "").endswith("Conditional")]
-        ok = False
-        if upd:
-            acc = norm(upd[0].targets[0])
-            fv = call_kw(upd[0].value, "false_value") or (upd[0].value.args[2] if len(upd[0].value.args) > 2 else None)
-            init = [n for n in f.node.body if isinstance(n, ast.Assign) and norm(n.targets[0]) == acc and norm(n.value) == e]
-            ok = fv is not None and norm(fv) == acc and bool(init)
-        ctx.check(ok, "R16.a", f.key("fold"), "nested conditionals around a single copy of the expression", "remove_singularities: the loop does not nest one conditional per singularity around a single copy of the expression", f.where(l))
+    v = util.value_of(ctx, f)
+    conds_calls = [c for c in av.find_all(v, "call") if c[1].split(".")[-1] == "Conditional"]
+    sums = [c for c in av.find_all(v, "call") if c[1] in ("sum", "sympy.Add", "sympy.Add.fromiter") and any("Conditional" in av.show(a) for a in c[2])]
+    folds = [x for x in av.find_all(v, "fold") if any(c in av.find_all(x, "call") for c in conds_calls)]
+
+    def kw_or_pos(c, name, pos):
+        d = dict(c[3])
+        return d.get(name, c[2][pos] if len(c[2]) > pos else None)
+
+    if sums:
+        per = [c for c in conds_calls if kw_or_pos(c, "false_value", 2) == ("sym", e)]
+        if per:
+            ctx.fail(
+                "R16.a",
+                f.key("sum(exprs)"),
+                f"remove_singularities builds one Conditional per singularity, each with the *whole* expression as its regular branch (false_value={e}), and adds them up: with k removable singularities the result is k*expr away from the singular points (and replacement + (k-1)*expr at them)",
+                f.where(),
+                trace=["x/(exp(x)-1) + (x-1)/(exp(x-1)-1) has two removable singularities: the rewritten expression is twice the original off the singular points"],
+            )
+        else:
+            ctx.undecided("R16.a", f.key("fold"), "per-singularity conditionals are added up, but their regular branch is not the whole expression; the combination is not judged", f.where())
+    elif folds:
+        fo = folds[0]
+        body = fo[4]
+        ok = fo[3] == ("sym", e) and body[0] == "call" and body[1].split(".")[-1] == "Conditional" and kw_or_pos(body, "false_value", 2) == ("acc", fo[1]) and av._unwrap_seq(fo[2]) in (("sym", sing),) or (fo[3] == ("sym", e) and body[0] == "call" and kw_or_pos(body, "false_value", 2) == ("acc", fo[1]))
+        ctx.check(ok, "R16.a", f.key("fold"), "nested conditionals around a single copy of the expression", f"remove_singularities: the loop does not nest one conditional per singularity around a single copy of the expression ({av.show(fo)[:160]})", f.where())
+    elif av.has_unk(v) or not conds_calls:
+        if not conds_calls and not av.has_unk(v):
+            ctx.fail("R16.a", f.key("shape"), "remove_singularities neither nests conditionals nor combines per-singularity conditionals in a recognised way", f.where())
+        else:
+            ctx.undecided("R16.a", f.key("fold"), "how remove_singularities combines the per-singularity conditionals is not understood", f.where())
     else:
-        ctx.fail("R16.a", f.key("shape"), "remove_singularities neither nests conditionals nor combines per-singularity conditionals in a recognised way", f.where())
+        ctx.undecided("R16.a", f.key("fold"), f"how remove_singularities combines the per-singularity conditionals is not recognised ({av.show(v)[:120]})", f.where())
 
     ctx.rule("R16.b", "every finite singularity contributes Conditional(Eq(symbol, value), limit, .); infinite ones are skipped; no singularity -> the expression is returned unchanged; the search covers every stateful dependency in the whole model", floor=10)
-    cond_call = comps[0].elt if comps else None
-    if cond_call is None:
-        cands = [c for c in ast.walk(f.node) if isinstance(c, ast.Call) and (dotted(c.func) or "").endswith("Conditional")]
-        cond_call = cands[0] if cands else None
-    okc = cond_call is not None and norm(call_kw(cond_call, "cond") or cond_call.args[0]).replace("sympy.", "sp.") == "sp.Eq(singularity.symbol, singularity.value)" and norm(call_kw(cond_call, "true_value") or cond_call.args[1]) == "singularity.replacement"
-    ctx.check(okc, "R16.b", f.key("conditional"), "Conditional(Eq(symbol, value), replacement, ...)", "remove_singularities: a singularity does not become Conditional(Eq(singularity.symbol, singularity.value), singularity.replacement, ...)", f.where())
-    skip = False
-    if comps:
-        g = comps[0].generators[0]
-        skip = norm(g.iter) == sing and [norm(c) for c in g.ifs] == ["not singularity.is_infinite"]
-    ctx.check(skip, "R16.b", f.key("skip-infinite"), "exactly the infinite singularities are skipped", "remove_singularities does not iterate every singularity and skip exactly those with `is_infinite`", f.where())
-    ret_same = any(isinstance(n, ast.If) and norm(n.test) in ("len(exprs) == 0", "not exprs") and any(isinstance(s, ast.Return) and norm(s.value) == e for s in n.body) for n in ast.walk(f.node))
-    ctx.check(ret_same, "R16.b", f.key("unchanged"), "no removable singularity: the expression itself is returned", "remove_singularities does not return the expression unchanged when nothing is removable", f.where())
-    inf = sm.func("atoms.py", "Singularity.is_infinite")
-    rets = [norm(n.value) for n in ast.walk(inf.node) if isinstance(n, ast.Return)]
-    ctx.check(rets == ["self.replacement.has(sp.oo) or self.replacement.has(-sp.oo)"], "R16.b", inf.key(), "infinite iff the limit contains oo / -oo", f"Singularity.is_infinite is `{rets}`: a finite but symbolic limit (e.g. 1/k) could be classified as infinite and left in the model", inf.where())
+    if not conds_calls:
+        ctx.undecided("R16.b", f.key("conditional"), "no Conditional(...) is built by remove_singularities (or it is not understood)", f.where())
+    else:
+        c0 = conds_calls[0]
+        binders = [x for x in av.find_all(v, "comp") + av.find_all(v, "fold") if c0 in av.find_all(x, "call")]
+        bvs = [("bv", b[1]) for b in binders]
+        cnd, tv = kw_or_pos(c0, "cond", 0), kw_or_pos(c0, "true_value", 1)
+        okc = any(cnd == ("call", "sympy.Eq", (("attr", bv, "symbol"), ("attr", bv, "value")), ()) and tv == ("attr", bv, "replacement") for bv in bvs)
+        ctx.check(okc, "R16.b", f.key("conditional"), "Conditional(Eq(symbol, value), replacement, ...)", f"remove_singularities: a singularity becomes {av.show(c0)[:140]}, not Conditional(Eq(singularity.symbol, singularity.value), singularity.replacement, ...)", f.where())
+        comps = [b for b in binders if b[0] == "comp"]
+        if comps:
+            cp = comps[0]
+            bv = ("bv", cp[1])
+            skip = av._unwrap_seq(cp[2]) == ("sym", sing) and cp[4] == (("not", ("attr", bv, "is_infinite")),)
+            ctx.check(skip, "R16.b", f.key("skip-infinite"), "exactly the infinite singularities are skipped", f"remove_singularities iterates {av.show(cp[2])[:60]} with the filter {[av.show(c)[:60] for c in cp[4]]}: not every singularity, skipping exactly those with `is_infinite`", f.where())
+            leaves = _branches(v)
+            same = [c for c, x in leaves if x == ("sym", e)]
+            ret_same = any(any(k == ("not", cp) or (k[0] == "not" and av._unwrap_seq(k[1]) == cp) for k in c) for c in same)
+            ctx.check(ret_same, "R16.b", f.key("unchanged"), "no removable singularity: the expression itself is returned", "remove_singularities does not return the expression unchanged exactly when nothing is removable", f.where())
+        else:
+            ctx.undecided("R16.b", f.key("skip-infinite"), "the per-singularity conditionals are not built by a comprehension over the singularities; the filter is not judged", f.where())
+    util.same_as_reference(ctx, "R16.b", "atoms.py", "Singularity.is_infinite", REF_IS_INFINITE, "", "infinite iff the limit contains oo / -oo", "Singularity.is_infinite changed: a finite but symbolic limit (e.g. 1/k) could be classified as infinite and left in the model, or an infinite one used as a replacement")
+    util.same_as_reference(
+        ctx, "R16.b", "atoms.py", "Assignment.singularities", REF_SINGULARITIES, "search",
+        "every stateful dependency is searched with singularities(expr, its symbol); each point of a finite set is recorded with limit(expr, symbol, point)",
+        "Assignment.singularities no longer examines every stateful dependency / records (symbol, value, limit(expr, symbol, value)) for every point of a finite singular set",
+    )
+    import ast as _ast
+
+    from sa.sm import norm as _norm
+
     sg = sm.func("atoms.py", "Assignment.singularities")
-    loops = [n for n in sg.node.body if isinstance(n, ast.For)]
-    ctx.require(loops, "Assignment.singularities: loop over the dependencies not found")
-    l = loops[0]
-    ctx.check(norm(l.iter) == "self.value.dependencies", "R16.b", sg.key("every-dependency"), "every dependency is examined", f"Assignment.singularities iterates {norm(l.iter)}", sg.where(l))
-    brk = [n for n in ast.walk(l) if isinstance(n, ast.Break)] + [n for n in ast.walk(l) if isinstance(n, ast.Return)]
-    ctx.check(not brk, "R16.b", sg.key("no-early-exit"), "the search never stops at the first dependency without a singularity", "Assignment.singularities leaves the loop early (break/return): dependencies after the first one without singularities are not searched (and which one is first depends on set order)", sg.where(brk[0]) if brk else sg.where())
-    skips = [norm(n.test) for n in l.body if isinstance(n, ast.If) and any(isinstance(s, ast.Continue) for s in n.body)]
-    ctx.check(skips == ["not var.is_stateful(lookup)", "not values", "not isinstance(values, sp.sets.sets.FiniteSet)"], "R16.b", sg.key("skips"), "skipped: non-stateful dependency, no singular value, non-finite set", f"Assignment.singularities skips on {skips}", sg.where(l))
-    sc = [c for c in ast.walk(l) if isinstance(c, ast.Call) and norm(c.func) == "Singularity"]
-    oks = bool(sc) and {k.arg: norm(k.value) for k in sc[0].keywords} == {"symbol": "var.symbol", "value": "value", "replacement": "limit(self.expr, var.symbol, value)"}
-    ctx.check(oks, "R16.b", sg.key("record"), "Singularity(symbol, value, limit(expr, symbol, value))", "Assignment.singularities does not record (var.symbol, value, limit(self.expr, var.symbol, value))", sg.where())
-    vals = [n for n in ast.walk(l) if isinstance(n, ast.Assign) and norm(n.targets[0]) == "values"]
-    ctx.check(bool(vals) and norm(vals[0].value) == "singularities(self.expr, var.symbol)", "R16.b", sg.key("search"), "singularities(expr, state symbol)", "Assignment.singularities does not search singularities(self.expr, var.symbol)", sg.where())
-    orm = sm.func("ode.py", "ODE.remove_singularities")
-    calls = [c for c in ast.walk(orm.node) if isinstance(c, ast.Call) and isinstance(c.func, ast.Attribute) and c.func.attr == "remove_singularities"]
-    ctx.check(bool(calls) and norm(calls[0].args[0]) == "self._lookup", "R16.b", orm.key("model-wide-lookup"), "states are looked up in the whole model", f"ODE.remove_singularities passes {norm(calls[0].args[0]) if calls else None} as lookup: a dependency on a state of another component would never be examined", orm.where())
-    loops = [n for n in ast.walk(orm.node) if isinstance(n, ast.For)]
-    ctx.check(bool(loops) and norm(loops[0].iter) in ("self._components.values()", "self.components"), "R16.b", orm.key("every-component"), "every component is rewritten", "ODE.remove_singularities does not rewrite every component", orm.where())
-    crm = sm.func("ode_component.py", "Component.remove_singularities")
-    loops = [n for n in ast.walk(crm.node) if isinstance(n, ast.For)]
-    ctx.check(bool(loops) and norm(loops[0].iter) == "self.assignments" and "new_assignments.add(assignment.remove_singularities(lookup))" in norm(loops[0]), "R16.b", crm.key("every-assignment"), "every assignment is rewritten", "Component.remove_singularities does not rewrite every assignment", crm.where())
-    arm = sm.func("atoms.py", "Assignment.remove_singularities")
-    nc = [c for c in ast.walk(arm.node) if isinstance(c, ast.Call) and (dotted(c.func) or "") == "remove_singularities"]
-    ctx.check(bool(nc) and [norm(a) for a in nc[0].args] == ["self.expr", "singularities"], "R16.b", arm.key("apply"), "remove_singularities(self.expr, its singularities)", "Assignment.remove_singularities does not rewrite self.expr with its own singularities", arm.where())
+    for l in [n for n in _ast.walk(sg.node) if isinstance(n, _ast.For) and "dependencies" in _norm(n.iter)]:
+        brk = [n for n in _ast.walk(l) if isinstance(n, _ast.Break)]
+        ctx.check(not brk, "R16.b", sg.key("no-early-exit"), "the search never stops at the first dependency without a singularity", "Assignment.singularities leaves the loop over the dependencies early (break): dependencies after that one are not searched (and which one comes first depends on set order)", sg.where(brk[0]) if brk else sg.where())
+    util.same_as_reference(ctx, "R16.b", "ode.py", "ODE.remove_singularities", REF_ODE_REMOVE, "model-wide-lookup", "every component is rewritten, states are looked up in the whole model", "ODE.remove_singularities does not rewrite every component with the model-wide lookup table: a dependency on a state of another component would never be examined")
+    util.same_as_reference(ctx, "R16.b", "ode_component.py", "Component.remove_singularities", REF_COMPONENT_REMOVE, "every-assignment", "every assignment is rewritten", "Component.remove_singularities does not rewrite every assignment (or drops states / parameters)")
+    util.same_as_reference(ctx, "R16.b", "atoms.py", "Assignment.remove_singularities", REF_ASSIGNMENT_REMOVE, "apply", "remove_singularities(self.expr, its singularities); everything else copied", "Assignment.remove_singularities does not rewrite self.expr with its own singularities while keeping the other fields")
